@@ -67,6 +67,11 @@ int fegetround(void);
 #include "internal/value.h"
 
 #define DEFAULT_SERIALIZATION_CAP 512
+#if defined(CIF_API_VERIF) && defined(CIF_API_VERIF_SERIALIZATION_CAP)
+/* verification hook: lets a bounded-verification build shrink the serialization buffer */
+#undef DEFAULT_SERIALIZATION_CAP
+#define DEFAULT_SERIALIZATION_CAP CIF_API_VERIF_SERIALIZATION_CAP
+#endif
 
 /**
  * @brief The base-10 logarithm of the smallest positive representable double (a de-normalized number),
